@@ -55,6 +55,10 @@ fn generators() -> Vec<Gen> {
     push("basis(perm zxy)".into(), M4::from_basis(vec3(0.0, 0.0, 1.0), vec3(1.0, 0.0, 0.0), vec3(0.0, 1.0, 0.0)), false);
     push("basis(swap xy)".into(), M4::from_basis(vec3(0.0, 1.0, 0.0), vec3(1.0, 0.0, 0.0), vec3(0.0, 0.0, 1.0)), false);
     push("basis(shear)".into(), M4::from_basis(vec3(1.0, 0.0, 0.0), vec3(0.5, 1.0, 0.0), vec3(-0.25, 2.0, 1.0)), false);
+    // near-rigid maps: M^T M within 1e-2 of the identity, yet the transpose is not the inverse
+    push("scale[1.004, 0.997, 1.002]".into(), scale(vec3(1.004, 0.997, 1.002)), false);
+    push("basis(shear 0.008)".into(), M4::from_basis(vec3(1.0, 0.008, 0.0), vec3(0.0, 1.0, -0.006), vec3(0.004, 0.0, 1.0)), false);
+    push("translate[0.004, -0.003, 0.002]".into(), translate(vec3(0.004, -0.003, 0.002)), false);
     push("basis(neg diag zero)".into(), M4::from_basis(vec3(0.0, -2.0, 0.0), vec3(-1.0, 0.0, 3.0), vec3(0.0, 0.5, -1.0)), false);
     g
 }
@@ -216,8 +220,10 @@ fn check_constructors(r: &mut Report) {
     // orient_y / orient_z: axis goes to the new axis, basis orthonormal and right-handed, third axis orthogonal to x
     let dirs = [vec3(0.0, 1.0, 0.0), vec3(0.0, 0.0, 1.0), vec3(1.0, 2.0, 3.0).normalize(), vec3(-1.0, 1.0, 0.5).normalize(), vec3(0.6, 0.0, -0.8), vec3(-0.48, 0.6, 0.64)];
     let xs = [vec3(1.0, 0.0, 0.0), vec3(0.3, 0.1, 1.0).normalize(), vec3(0.0, 0.6, 0.8), vec3(-0.7071068, 0.7071068, 0.0)];
-    for d in dirs { for x in xs {
-        if (d.dot(&x).abs()) > 0.95 { continue; }
+    // (the second argument only hints at a direction: its length - 2e-4 .. 50 - must not matter)
+    for d in dirs { for x0 in xs { for hs in [1.0f32, 2e-4, 3e-3, 50.0] {
+        if (d.dot(&x0).abs()) > 0.95 { continue; }
+        let x = vec3(x0.x() * hs, x0.y() * hs, x0.z() * hs);
         for which in ["orient_y", "orient_z"] {
             r.eval();
             let m = if which == "orient_y" { orient_y(d, x) } else { orient_z(d, x) };
@@ -231,11 +237,11 @@ fn check_constructors(r: &mut Report) {
             if (0..3).any(|i| (main[i] - dd[i]).abs() > 1e-5) { bad.push("axis-not-mapped"); }
             for a in 0..3 { for b in 0..3 { let e = if a == b { 1.0 } else { 0.0 }; if (dot(col(a), col(b)) - e).abs() > 1e-4 { bad.push("not-orthonormal"); } } }
             if (det3(&md) - 1.0).abs() > 1e-4 { bad.push("det-not-1"); }
-            if dot(other, xd).abs() > 1e-4 || dot(other, dd).abs() > 1e-4 { bad.push("other-axis-not-orthogonal-to-x"); }
+            if dot(other, xd).abs() > 1e-4 * hs as f64 || dot(other, dd).abs() > 1e-4 { bad.push("other-axis-not-orthogonal-to-x"); }
             bad.dedup();
             if !bad.is_empty() { r.violation(format!("ctor|{which}|{}|{:?}|{:?}", bad.join("+"), d.0, x.0), format!("{which}({:?}, {:?}) = {:?}: {bad:?}", d.0, x.0, m.0), obj! {"kind" => "ctor"}); } else { r.nontrivial(); }
         }
-    }}
+    }}}
     // 3x3 matrices (2-D maps): compose/then/apply/apply_pt/transpose against f64
     type M3 = Mat3x3<RealToReal<2>>;
     let lits: Vec<M3> = vec![
